@@ -98,6 +98,18 @@ theorem ser_tupFree (t : T) : tupFree (ser t) = true := by
 
 /-! ### the built-in mutators only move old items around and store their arguments -/
 
+theorem setAll_mem (ps : List (Nat × T)) : ∀ (xs : Items) (p : String × T), p ∈ setAll ps xs → p ∈ xs ∨ p.2 ∈ ps.map (·.2) := by
+  induction ps with
+  | nil => intro xs p hp; exact .inl (by simpa [setAll] using hp)
+  | cons q ps ih =>
+      intro xs p hp
+      have hp' : p ∈ setAll ps (xs.set q.1 (li q.2)) := by simpa [setAll] using hp
+      rcases ih _ p hp' with h | h
+      · rcases List.mem_or_eq_of_mem_set h with h | h
+        · exact .inl h
+        · right; simp [h, li]
+      · right; simp only [List.map_cons, List.mem_cons]; exact .inr h
+
 theorem lEffect_mem {m : LMut} {xs xs' : Items} (h : lEffect m xs = .ok xs') :
     ∀ p ∈ xs', p ∈ xs ∨ p.2 ∈ m.args := by
   intro p hp
@@ -118,11 +130,35 @@ theorem lEffect_mem {m : LMut} {xs xs' : Items} (h : lEffect m xs = .ok xs') :
       · exact .inl (List.mem_of_mem_take hp)
       · right; simpa [li, LMut.args] using hv
       · exact .inl (List.mem_of_mem_drop hp)
+  | setsliceStep a b st k vs =>
+      simp only [lEffect] at h
+      split at h
+      · cases h
+      · split at h
+        · cases h
+        · injection h with h; subst h
+          rcases setAll_mem _ _ p hp with h | h
+          · exact .inl h
+          · right
+            simp only [List.mem_map] at h
+            obtain ⟨q, hq, hqe⟩ := h
+            rw [← hqe]
+            simpa [LMut.args] using (List.of_mem_zip (a := q.1) (b := q.2) hq).2
   | delitem i =>
       simp only [lEffect] at h
       split at h
       · injection h with h; subst h; exact .inl (List.mem_of_mem_eraseIdx hp)
       · cases h
+  | delsliceStep a b st =>
+      simp only [lEffect] at h
+      split at h
+      · cases h
+      · injection h with h; subst h
+        simp only [List.mem_filterMap] at hp
+        obtain ⟨i, _, hi⟩ := hp
+        split at hi
+        · cases hi
+        · exact .inl (List.mem_of_getElem? hi)
   | delslice a b =>
       simp only [lEffect] at h
       injection h with h; subst h
